@@ -39,8 +39,8 @@ CHECKS = {
             "hand models Fast/FastKeyed tied by T3; distinct consecutive counters and first-frame-first as the property states", "5 C04"),
     "C05": ("Lean 4 theorems about the T2 translations of _extract_header/_build_header, re-proved on every run against the current source: build∘parse = id on all 2^29 identifiers (omega, no enumeration), parse∘build for PDU1/PDU2 incl. non-canonical inputs, injectivity",
             "trusts the T2 translator (validated by differential runs of the translated defs against the Python functions)", "5 C05, Appendix B"),
-    "C06": ("Lean 4 theorems over the hand model Wire: every EByte packet is 13 bytes and every USB packet 20 bytes with a valid checksum, per-format round trips (EByte, USB, Yacht Devices, Actisense), ANY single corrupted byte among positions 2..19 is rejected (all 18 x 255 at once), one CR/LF per Yacht Devices line, fixed-size re-splitting, and the message-level addressing round trip composed with C05; correspondence of all four encoders and five decoders",
-            "frame-level model tied by T3; header/checksum are T2 translations; strict text grammar", "5 C06"),
+    "C06": ("Lean 4 theorems over the hand model Wire: every EByte packet is 13 bytes and every USB packet 20 bytes with a valid checksum, per-format round trips (EByte, USB, Yacht Devices, Actisense incl. the empty payload), ANY single corrupted byte among positions 2..19 is rejected (all 18 x 255 at once), one CR/LF per Yacht Devices line, fixed-size re-splitting, the addressing round trip composed with C05; message level (model Encoder of _encode and the encode_* wrappers on the T1 tables): for every message of a Single/Fast definition the encoder accepts, every EByte/USB packet has the fixed size and is accepted, nothing is returned before the last packet and the last packet returns exactly what the pre-assembled payload returns (any configuration, any decoder state), the Actisense line carries the message's PGN/addressing/payload, the sequence counter advances once per fast message; correspondence of all four encoders and five decoders at frame level and of the real encoder on whole messages of every encodable definition; message-level trip monitor on the real code on every run",
+            "models tied by T3; header/checksum are T2 translations; is_fast/encoder tables T1; strict text grammar; canonical addressing; Yacht Devices message level by correspondence only", "5 C06"),
     "C07": ("Lean 4 theorems: the three frame-level formats and the two message-level formats extract the same frame (identifier fields + data) that the common decoding core receives, incl. direction markers and lower-case hex; kernel-checked table theorem (the shipped is_fast_pgn_* functions are what the database Types demand, every definition) + decoder-model theorem (for every fast-packet definition, frame-by-frame delivery returns nothing before the last frame and then exactly what the pre-assembled payload returns, any configuration, any decoder state; already_combined is irrelevant for single-frame definitions); correspondence of the five real front-ends with the frame observed at _decode, of every is_fast function with the table, and of the real decoder driven through its six public deliveries (mixed on one decoder) with the decoder model",
             "strict text grammar; PGN types ISO/Mixed (2 definitions) outside the domain; the stream's record must not already hold the sequence counter", "5 C07"),
     "C08": ("kernel-checked table theorem (the 24 shipped dispatchers = Spec.compileDisp of the database groups, regenerated from pgns.py and canboat.json every run) + generic Lean theorem (compiled dispatcher = Spec.select: first matching non-fallback definition in database order, else fallback, else none) with corollaries (only match bits matter, selected definition carries its match values); end-to-end correspondence of the translated tables with the real decode_pgn_<PGN>",
